@@ -167,7 +167,15 @@ MUTATING_FUNCS = {  # dotted name -> index of the argument written in place
     "bisect.insort": 0, "bisect.insort_left": 0, "bisect.insort_right": 0,
     "hopcroftkarp.HopcroftKarp": 0,  # the constructor adds reverse edges to the dict it is given
     "setattr": 0, "builtins.setattr": 0,
+    # the function forms of the in-place operators: `operator.iadd(a, b)` is `a += b`
+    "operator.iadd": 0, "operator.isub": 0, "operator.imul": 0, "operator.itruediv": 0, "operator.ifloordiv": 0,
+    "operator.imod": 0, "operator.ipow": 0, "operator.iand": 0, "operator.ior": 0, "operator.ixor": 0,
+    "operator.imatmul": 0, "operator.iconcat": 0, "operator.ilshift": 0, "operator.irshift": 0,
+    "operator.setitem": 0, "operator.delitem": 0,
+    "operator.__iadd__": 0, "operator.__isub__": 0, "operator.__imul__": 0, "operator.__itruediv__": 0,
+    "operator.__setitem__": 0, "operator.__delitem__": 0,
 }
+INPLACE_OPERATOR_FUNCS = {k for k in MUTATING_FUNCS if k.startswith("operator.") and "item" not in k}
 SHALLOW_CONTAINER_FUNCS = {"builtins.list": "list", "builtins.tuple": "tuple", "builtins.set": "set",
                            "builtins.frozenset": "set", "builtins.sorted": "list", "builtins.reversed": "list",
                            "builtins.zip": "list", "builtins.enumerate": "list", "builtins.iter": "list",
@@ -182,7 +190,7 @@ SCALAR_FUNCS = {"builtins.len", "builtins.int", "builtins.float", "builtins.bool
                 "builtins.id", "builtins.repr", "builtins.format", "builtins.divmod", "builtins.pow"}
 EXTERNAL_ROOTS = ("numpy", "scipy", "sklearn", "matplotlib", "joblib", "hopcroftkarp", "deprecated", "builtins",
                   "itertools", "operator", "warnings", "copy", "bisect", "typing", "pprint", "math", "abc",
-                  "collections", "functools", "random", "os", "time", "secrets", "__future__", "mpl_toolkits",
+                  "collections", "functools", "random", "os", "time", "secrets", "__future__", "mpl_toolkits", "dataclasses",
                   "numbers", "sys", "heapq", "re", "json", "pickle", "decimal", "fractions")
 GENERIC_METHOD_NAMES = {"copy", "astype", "flatten", "dot", "sum", "min", "max", "mean", "reshape", "ravel",
                         "transpose", "format", "join", "get", "items", "keys", "values", "tolist", "plot", "scatter",
@@ -1267,6 +1275,9 @@ class FunctionAnalysis:
                 if isinstance(n.func, ast.Attribute):
                     self._weak_elem_update(n.func.value, recv, v, env)
             return AV(kind="none")
+        if name == "_replace":
+            # NamedTuple._replace: a new tuple holding the old fields and the given values (nothing is copied)
+            return joins([recv] + list(kwargs.values()))
         if name == "copy":
             if recv.kind in ("list", "dict", "set") or (recv.kind == "unknown" and recv.elem is not None):
                 return container(recv.kind, elem_of(recv) if (recv.is_ or recv.elem) else None)
@@ -1300,6 +1311,22 @@ class FunctionAnalysis:
             i = MUTATING_FUNCS[tgt]
             if i < len(pos):
                 self.write_through(pos[i], n, f"{tgt} writes its argument {i} in place")
+        if tgt in INPLACE_OPERATOR_FUNCS and pos:
+            return pos[0]   # the in-place operators hand back their (mutated) first operand
+        if tgt == "functools.reduce" and len(pos) >= 2:
+            # reduce(f, xs[, init]): f(acc, x) with acc starting as init / the first element and then whatever f returned
+            e = elem_of(pos[1])
+            acc = pos[2] if len(pos) > 2 else e
+            for _ in range(2):
+                acc = joins([acc, self.call_value(pos[0], [acc, e], {}, n, env)])
+            return acc
+        if tgt in ("dataclasses.replace", "copy.replace") and pos:
+            # a new record whose fields are the old record's fields and the given values (no copy of either)
+            return joins([pos[0]] + list(kwargs.values()))
+        if tgt in ("dataclasses.asdict", "dataclasses.astuple") and pos:
+            return FRESH   # deep copies of the fields
+        if tgt in ("dataclasses.field", "dataclasses.fields", "dataclasses.is_dataclass", "dataclasses.dataclass"):
+            return FRESH
         if tgt in ("joblib.delayed",) and pos:
             return pos[0]
         if tgt == "joblib.Parallel":
